@@ -961,3 +961,145 @@ def run_floor_step(tier, log, seed):
     else:
         res.update(status="inconclusive", reason=str(detail))
     return res
+
+
+# ------------------------------------------------------------------------------------------------ generic path search
+def path_search(fn, duo, delta, edge_delta, tag, violation, want=()):
+    """Encode all entry->return paths of an acyclic CFG with an integer cell `c` (sum of block/edge deltas, symbolic terms allowed)
+    and a tag cell `k` (last non-None tag on the path). `violation(cout_term, kout_term, block)` gives the Bool to satisfy at a return."""
+    blocks = normal_blocks(fn)
+    es = edges(fn, blocks)
+    if has_cycle(blocks, es):
+        return "inconclusive", {"reason": "CFG has a cycle"}
+    decls, asserts = [], []
+    for b in blocks:
+        decls += [f"(declare-const on_{b} Bool)", f"(declare-const cin_{b} Int)", f"(declare-const kin_{b} Int)"]
+    decls += list(want)
+    evar = {e: f"e{i}" for i, e in enumerate(es)}
+    decls += [f"(declare-const {v} Bool)" for v in evar.values()]
+    asserts += ["on_bb0", "(= cin_bb0 0)", "(= kin_bb0 0)"]
+    outs = {b: [e for e in es if e[0] == b] for b in blocks}
+    ins = {b: [e for e in es if e[2] == b] for b in blocks}
+
+    def one(vs):
+        if not vs:
+            return "false"
+        if len(vs) == 1:
+            return vs[0]
+        return "(and (or " + " ".join(vs) + ") " + " ".join(f"(not (and {vs[i]} {vs[j]}))" for i in range(len(vs)) for j in range(i + 1, len(vs))) + ")"
+    returns = [b for b in blocks if fn.blocks[b].term == "return"]
+
+    def cout(b):
+        d = delta.get(b, "0")
+        return f"(+ cin_{b} {d})"
+
+    def kout(b):
+        return str(tag[b]) if tag.get(b) is not None else f"kin_{b}"
+    for b in blocks:
+        o = [evar[e] for e in outs[b]]
+        if o:
+            asserts.append(f"(=> on_{b} {one(o)})")
+            asserts.append(f"(=> (not on_{b}) (not (or {' '.join(o)} false)))")
+        for e in outs[b]:
+            asserts.append(f"(=> {evar[e]} (and on_{e[2]} (= cin_{e[2]} (+ {cout(b)} {edge_delta.get(e, '0')})) (= kin_{e[2]} {kout(b)})))")
+        if b != "bb0":
+            asserts.append(f"(=> on_{b} {one([evar[e] for e in ins[b]])})")
+    asserts.append(one([f"on_{b}" for b in returns]))
+    asserts.append("(or " + " ".join(f"(and on_{b} {violation(cout(b), kout(b), b)})" for b in returns) + ")")
+    v, model, detail = duo.check(decls, asserts, want_model_of=[f"on_{b}" for b in blocks])
+    info = {"blocks": len(blocks), "edges": len(es), "returns": len(returns), "solver": detail}
+    if v == "sat":
+        info["path"] = sorted([b for b in blocks if re.search(r"\(on_%s true\)" % b, model)], key=lambda x: int(x[2:]))
+    return v, info
+
+
+# ------------------------------------------------------------------------------------------------ C08 (transfer conserves ether on every outcome)
+def run_transfer_conservation(tier, log, seed):
+    text = mir.dump("revm", log)
+    funcs = mir.parse_functions(text)
+    cands = [f for n, fl in funcs.items() for f in fl if re.search(r"journaled_state::<impl at [^>]*>::transfer$", n)]
+    duo = smt.Duo(timeout_s=30)
+    res = dict(queries=0, solver_s=0.0, engine="mir-cfg -> smtlib path search (z3 4.8.12 + cvc5 1.0)")
+    if len(cands) != 1:
+        duo.close()
+        res.update(status="inconclusive", reason=f"JournaledState::transfer: {len(cands)} MIR bodies")
+        return res
+    fn = cands[0]
+    # classify every store through a `&mut U256` that points into an account's balance by where the stored value comes from:
+    # checked_sub(.., amount) payload -> the account loses `amount` (-1); checked_add / saturating_add / wrapping_add / `+` -> it gains it (+1)
+    amount_local = None
+    for a, ty in fn.args:
+        if "Uint<256, 4>" in ty or "U256" in ty:
+            amount_local = a
+    delta, tag, unknown = {}, {}, []
+    KIND = {"OutOfFunds": 1, "OverflowPayment": 2}
+
+    def origin(local, depth=0):
+        ds = defs_of(fn, local)
+        if len(ds) != 1 or depth > 6:
+            return None
+        d = ds[0]
+        m = re.match(r"^(?:move|copy) \(\((_\d+) as Some\)\.0: .*\)$", d) or re.match(r"^(?:move|copy) (_\d+)$", d)
+        if m:
+            return origin(m.group(1), depth + 1)
+        m = re.match(r"^ruint::add::<impl Uint<256, 4>>::(checked_sub|checked_add|saturating_add|wrapping_add|saturating_sub|wrapping_sub)\((?:move|copy) _\d+, (?:move|copy) (_\d+)\)", d)
+        if m and m.group(2) == amount_local:
+            return -1 if "sub" in m.group(1) else +1
+        m = re.match(r"^<Uint<256, 4> as (Add|Sub)>::(add|sub)\((?:move|copy) _\d+, (?:move|copy) (_\d+)\)", d)
+        if m and m.group(3) == amount_local:
+            return +1 if m.group(1) == "Add" else -1
+        return None
+    n_writes = 0
+    for b in fn.blocks.values():
+        tot, sym = 0, []
+        for s in b.stmts + [b.term or ""]:
+            m = re.match(r"^\(\*(_\d+)\) = (?:move|copy) (_\d+)$", s)
+            if m and "Uint<256, 4>" in fn.locals.get(m.group(1), ""):
+                o = origin(m.group(2))
+                n_writes += 1
+                if o is None:
+                    sym.append(f"w_{b.name}")
+                    unknown.append(b.name)
+                else:
+                    tot += o
+            m = re.match(r"^_\d+ = <Uint<256, 4> as (AddAssign|SubAssign)>::(add_assign|sub_assign)\((?:move|copy) _\d+, (?:move|copy) (_\d+)\)", s)
+            if m:
+                n_writes += 1
+                if m.group(3) == amount_local:
+                    tot += 1 if m.group(1) == "AddAssign" else -1
+                else:
+                    sym.append(f"w_{b.name}")
+                    unknown.append(b.name)
+            mm = re.search(r"InstructionResult::(OutOfFunds|OverflowPayment)", s)
+            if mm:
+                tag[b.name] = KIND[mm.group(1)]
+        if tot or sym:
+            parts = [str(tot) if tot >= 0 else f"(- {-tot})"] + sym
+            delta[b.name] = parts[0] if len(parts) == 1 else "(+ " + " ".join(parts) + ")"
+        c = callee_of(b.term or "")
+        if c and "from_residual" in c[3]:
+            tag[b.name] = 9  # database error: whole transaction aborts, not constrained
+    want = [f"(declare-const w_{b} Int)" for b in set(unknown)]
+    v, info = path_search(fn, duo, delta, {}, tag, lambda c, k, b: f"(and (not (= {k} 9)) (not (= {c} 0)))", want)
+    res.update(queries=duo.queries, solver_s=duo.time,
+               bounds=f"JournaledState::transfer: {info.get('blocks')} blocks, {info.get('returns')} return(s), {n_writes} balance store(s) "
+                      f"({len(unknown)} of unknown origin): every non-error return must have debits == credits: {v}",
+               detail="a store of a checked_sub(.., amount) payload counts -1, of a checked_add/saturating_add/+= amount +1; a store of unknown origin is a free integer")
+    duo.close()
+    if v == "unsat":
+        res.update(status="pass")
+        return res
+    if v != "sat":
+        res.update(status="inconclusive", reason=str(info))
+        return res
+    kinds = [k for b, k in tag.items() if b in info["path"] and k in (1, 2)]
+    key = {1: "OutOfFunds", 2: "OverflowPayment"}.get(kinds[-1] if kinds else 0, "ok")
+    st, out = native.call("debug", "transfer_sum", key, log=log)
+    desc = f"JournaledState::transfer: a path returning {key} leaves debits != credits (path {'>'.join(info['path'][-6:])})"
+    m = re.match(r"result=(\w+) from_before=(\d+) from_after=(\d+) to_before=(\w+) to_after=(\w+)", out) if st == "ok" else None
+    if m:
+        lost = (m.group(2) != m.group(3)) and m.group(4) == m.group(5)
+        res.update(status="fail", failures=[dict(id=f"transfer-{key}", reproduced=bool(lost), description=desc + f" | native: {out}")], reason=desc)
+    else:
+        res.update(status="inconclusive", reason=f"native scenario failed: {st} {out}")
+    return res
